@@ -658,7 +658,7 @@ def _ast_families(src, tree):
         if isinstance(n, ast.Constant) and isinstance(n.value, complex) and _math.isinf(n.value.imag):
             f.add("imag_literal_overflows_to_inf")
         if isinstance(n, ast.Compare) and len(n.ops) > 1 and isinstance(n.ops[0], (ast.In, ast.NotIn)) and \
-                any(_is_c_literal(c) for c in n.comparators[1:]):
+                any(_is_c_literal(c) or (_is_num(c) and i + 2 < len(n.ops)) for i, c in enumerate(n.comparators[1:])):
             f.add("in_cascade_with_c_literal_operand")
         if isinstance(n, ast.Compare) and any(isinstance(o, (ast.Lt, ast.Gt, ast.LtE, ast.GtE)) and
                                               (_is_num(a, (complex,)) or _is_num(b, (complex,)))
@@ -820,7 +820,7 @@ FAMILY_RULES = [
     ("bitop_on_float_literal_in_call_keyword", "crash", r"AttributeError@ExprNodes\.py:generate_result_code", "bitop_on_float_literal_in_call_keyword"),
     ("module_global_reannotated_with_non_type", "crash", r"AttributeError@ExprNodes\.py:_analyse_target_declaration", "module_global_reannotated_with_non_type"),
     ("closure_in_with_target", "crash", r"UnspecifiedType|AssertionError@ParseTreeTransforms\.py:visit_ExprNode", "closure_in_with_target"),
-    ("closure_in_with_target", "positioned", r"^'[^']*' redeclared", "closure_in_with_target"),
+    ("closure_in_with_target", "positioned", r"^'[^']*' redeclared|^Previous declaration is here", "closure_in_with_target"),
     ("flat_chain_over_1000_terms_recursion_error", "crash", r"RecursionError", "flat_chain_over_1000_terms"),
     # triaged fuzz findings: generated C rejected by gcc
     ("except_star_outside_function", "c_error", r"__pyx_skip_add_traceback.? undeclared", "except_star_outside_function"),
@@ -857,7 +857,7 @@ def match_family(f, kind, detail):
     return None
 
 
-def classify(src, ext, vd, forced=None):
+def classify(src, ext, vd):
     """class name of a violation: a registered input family (source predicate + failure kind + message), else a generic
     name built from the crash site / message (such names are never registered as known -> VIOLATION)"""
     kind, detail = vd
@@ -875,17 +875,17 @@ def classify(src, ext, vd, forced=None):
     return kind + ":" + re.sub(r"[^A-Za-z0-9_]+", "_", detail)[:50]
 
 
-def judge(ctx, src, ext, r, py_ok, forced=None):
+def judge(ctx, src, ext, r, py_ok):
     """apply the property oracle to one compile result; returns the violation class or None"""
     vd = verdict(r)
     kind, detail = vd
     inp = {"ext": ext, "src": src if len(src) < 6000 else src[:3000] + "\n#...(%d chars)...\n" % len(src) + src[-1500:]}
     if kind in ("crash", "timeout", "died", "unpositioned"):
-        k = classify(src, ext, vd, forced)
+        k = classify(src, ext, vd)
         ctx.fail(k, inp, list(vd), "positioned errors or C code, never an internal exception")
         return k
     if kind == "c_error":
-        k = classify(src, ext, vd, forced)
+        k = classify(src, ext, vd)
         ctx.fail(k, inp, list(vd), "generated C accepted by gcc -fsyntax-only")
         return k
     if kind == "positioned" and py_ok and ext == ".py":
@@ -909,7 +909,8 @@ def judge(ctx, src, ext, r, py_ok, forced=None):
     return None
 
 
-# fixed regression probes: (id, ext, source, class the unchanged tree is known to show or None)
+# fixed regression probes: (id, ext, source, registered class this input is expected to show, or None).  The class is
+# always computed by classify() from the input and the failure; the expectation only produces a note when it is not met.
 def probes():
     big = "1" * 4301
     P = [
@@ -939,7 +940,52 @@ def probes():
         ("ok_unbound", ".py", "def f():\n    print(a)\n    a = 1\n", None),
         ("ok_delnested", ".py", "def f():\n    a = 1\n    def g(): return a\n    del a\n    return g\n", None),
     ]
-    return P
+    return P + FAMILY_PROBES
+
+
+# minimal witness of every registered input family: always compiled (quick tier too) so that each open finding is hit
+# deterministically and a repair is noticed (the class stops firing -> note in the evidence).  (id, ext, source, class)
+_CHAIN = ["v"] * 2000
+FAMILY_PROBES = [
+    ("unreach_lambda", ".py", "def f(x):\n    try:\n        return 0\n    finally:\n        pass\n    g = lambda: 1\n", "closure_in_unreachable_code"),
+    ("unreach_genexpr", ".py", "def f(x):\n    for i in x:\n        if 1:\n            continue\n        g = (j for j in x)\n", "closure_in_unreachable_code"),
+    ("unpack_slice", ".py", "def f(x, y):\n    a, b = x[y:]\n    return a, b\n", "unpack_slice_with_nonliteral_start"),
+    ("class_hdr_comp", ".py", "b = [object]\nclass C(*[x for x in b]):\n    pass\n", "comprehension_in_class_header"),
+    ("class_hdr_walrus", ".py", "class C((v := object)):\n    pass\n", "walrus_in_class_header"),
+    ("mod_genexpr_walrus", ".py", "g = ((v := i) for i in [1])\n", "walrus_in_module_level_genexpr"),
+    ("augassign_genexpr", ".py", "def f(a, b):\n    a[(x for x in b)] += 1\n", "augassign_target_contains_genexpr"),
+    ("in_cascade_float", ".py", "def f(x, y):\n    return x in y == 1.5\n", "in_cascade_with_c_literal_operand"),
+    ("in_cascade_int", ".py", "def f(x, y, z):\n    return x in y == 0 >= z\n", "in_cascade_with_c_literal_operand"),
+    ("dstar_dict_key", ".py", "k = 'sep'\nprint(**{k: ''})\n", "call_with_double_star_dict_display_computed_key"),
+    ("kw_bitop", ".py", "print(sep=~1.5)\n", "bitop_on_float_literal_in_call_keyword"),
+    ("reannotate", ".py", "x = 1\nx: 'int | None' = 2\n", "module_global_reannotated_with_non_type"),
+    ("with_target_lambda", ".py", "def f(c, d):\n    with c as d[lambda a: a]:\n        pass\n", "closure_in_with_target"),
+    ("with_target_listcomp", ".py", "def f(c, d, e):\n    with c as d[[a for a in e][0]]:\n        pass\n", "closure_in_with_target"),
+    ("with_target_genexpr", ".py", "def f(c, d, e):\n    with c as d[(a for a in e)]:\n        pass\n", "closure_in_with_target"),
+    ("flat_and_2000", ".py", "v = 1\nx = " + " and ".join(_CHAIN) + "\n", "flat_chain_over_1000_terms_recursion_error"),
+    ("flat_cmp_2000", ".py", "v = 1\nx = " + " < ".join(_CHAIN) + "\n", "flat_chain_over_1000_terms_recursion_error"),
+    ("exstar_module", ".py", "import os\ntry:\n    os.x\nexcept* ValueError:\n    pass\n", "except_star_outside_function"),
+    ("exstar_empty", ".py", "def f(g):\n    try:\n        g()\n    except* ():\n        pass\n", "except_star_empty_tuple"),
+    ("imag_inf", ".py", "x = 1e400j\n", "imag_literal_overflows_to_inf"),
+    ("slice_type_name", ".py", "def f(x):\n    return x[int:]\n", "slice_bound_is_builtin_type_name"),
+    ("slice_tuple", ".py", "def f(x):\n    return x[(1, 2):]\n", "slice_bound_tuple_literal"),
+    ("bool_tuple", ".py", "def f(x):\n    if x or (1,):\n        return 1\n", "bool_operand_numeric_tuple_literal"),
+    ("genexpr_attr", ".py", "x = (i for i in 'a'.join)\n", "genexpr_over_attribute_of_builtin_value"),
+    ("fstr_nested_braces", ".py", "v = 1\nx = f\"{f'{{{v}'}\"\n", "nested_fstring_with_doubled_braces"),
+    ("fstr_nested_braces2", ".py", "v = 1\nx = f\"\"\"{f'{{{f\x27\x27\x27{v:>4}\x27\x27\x27}':>4}\"\"\"\n", "nested_fstring_with_doubled_braces"),
+    ("await_default", ".py", "async def f(x):\n    def g(a=await x): pass\n    return g\n", "await_in_nested_def_header"),
+    ("await_bases", ".py", "async def f(x):\n    class C(await x): pass\n", "await_in_nested_def_header"),
+    ("star_subscript", ".py", "def f(a, b):\n    return a[*b]\n", "star_in_subscript"),
+    ("star_except", ".py", "def f(g, t):\n    try:\n        g()\n    except (*t,):\n        pass\n", "starred_in_except_tuple"),
+    ("complex_truth", ".py", "def f(v):\n    with [1 for i in 'ab' if 2j] as v: pass\n", "complex_literal_truth_test"),
+    ("condexpr_tuple", ".py", "def f(c):\n    return .5 if c else (1j,)\n", "condexpr_number_vs_tuple_literal"),
+    ("invert_float", ".py", "x = ~1.5\n", "static_operand_type_error_on_literal_operands"),
+    ("complex_order", ".py", "x = 1j < 2\n", "static_operand_type_error_on_literal_operands"),
+    ("call_literal", ".py", "@1.5\ndef f(): pass\n", "call_of_numeric_literal"),
+    ("slice_float", ".py", "def f():\n    return 'abc'[:.5]\n", "slice_bound_float_literal"),
+    ("star_literal", ".py", "x = [*2]\n", "star_unpack_of_numeric_literal"),
+    ("async_for_literal", ".py", "async def f():\n    return [i async for i in 1.5]\n", "async_for_over_numeric_literal"),
+]
 
 
 def stmt_deletions(src, cap=48):
@@ -1045,7 +1091,10 @@ def run_programs(ctx):
                 feats = ""
         ctx.case("%s_%s_py%s" % (kind, ext.strip("."), "ok" if ok else "rejects"), {"ext": ext, "src": src[:300]},
                  sig=("prog", hash(src), ext))
-        k = judge(ctx, src, ext, r, ok, forced)
+        k = judge(ctx, src, ext, r, ok)
+        if kind == "probe" and forced and k != forced:
+            ctx.note("probe %s: expected class %s, observed %s%s" % (p["id"], forced, k or "no violation",
+                                                                    " (repaired? then mark the finding fixed)" if k is None else ""))
         if k and k not in ctx.known_classes and k not in unknown:
             unknown[k] = (src, ext)
     ctx.extra["outcome_histogram"] = {"%s/%s" % k: v for k, v in sorted(hist.items())}
